@@ -82,6 +82,7 @@ type Spec struct {
 	InputCalls []string          // call-name prefixes whose result variable becomes an input (error check after it dropped)
 	Ignore     []string          // call-name prefixes of statements to drop (logging, metrics, locks)
 	Vars       map[string]string // Go lvalue source (e.g. "b.notBefore") -> Lean variable name
+	IgnoreLHS  []string          // assignments to these targets (Go source of the lvalue) are dropped (e.g. `intervals = append(...)`)
 	Ret        string            // "errlast" (Option tuple), "tuple", "state" (return value followed by StateVars)
 	StateVars  []string          // Lean variable names appended to every return in "state" mode
 }
@@ -257,7 +258,15 @@ func (t *tr) assigned(b []ast.Stmt, out map[string]bool) {
 		case *ast.AssignStmt:
 			if x.Tok != token.DEFINE {
 				for _, l := range x.Lhs {
-					out[t.lvalue(l)] = true
+					skip := false
+					for _, ig := range t.sp.IgnoreLHS {
+						if src(l) == ig {
+							skip = true
+						}
+					}
+					if !skip {
+						out[t.lvalue(l)] = true
+					}
 				}
 			}
 		case *ast.IncDecStmt:
@@ -389,6 +398,13 @@ func (t *tr) block(b []ast.Stmt, tail string, ind string) string {
 				}
 			}
 			return t.block(rest, tail, ind)
+		}
+		if len(x.Lhs) == 1 {
+			for _, ig := range t.sp.IgnoreLHS {
+				if src(x.Lhs[0]) == ig {
+					return t.block(rest, tail, ind)
+				}
+			}
 		}
 		if len(x.Lhs) != len(x.Rhs) {
 			failf(s, "unsupported multi-value assignment %s", src(s))
